@@ -92,6 +92,26 @@ func (t *tokens) expr() expr.Expr {
 func (t *tokens) exprRec() expr.Expr {
 	tok := t.next()
 	switch {
+	case strings.HasPrefix(tok, "cw:"):
+		// cw:<hex>:<w> is the constant c:<hex> narrowed to w bytes by
+		// Const.WithWidth: a constant which shares its bytes (and spare
+		// capacity) with a wider one, like the values the emulator hands
+		// out of its register file. The wider constant is interned and
+		// watched like every other input.
+		parts := strings.Split(tok[3:], ":")
+		if len(parts) != 2 {
+			panic(parseError("bad narrowed const"))
+		}
+		w, err := strconv.ParseUint(parts[1], 10, 8)
+		if err != nil || w == 0 || int(w) > len(parts[0])/2 {
+			panic(parseError("bad narrowed const width"))
+		}
+		t.pos--
+		t.toks[t.pos] = "c:" + parts[0]
+		parent := t.exprRec().(expr.Const)
+		t.toks[t.pos-1] = tok
+		t.inputs = append(t.inputs, parsedInput{ex: parent, text: fmtExpr(parent)})
+		return parent.WithWidth(expr.Width(w))
 	case strings.HasPrefix(tok, "c:"):
 		if c, ok := t.consts[tok]; ok {
 			return c
